@@ -444,6 +444,27 @@ SYNTH_STATIC = {
         return;
     }
 }''',
+    '__opt_filter': '''fn __opt_filter(_1: Option, _2: F) -> Option {
+    bb0: {
+        _3 = discriminant(_1);
+        switchInt(move _3) -> [0: bb1, otherwise: bb2];
+    }
+    bb1: {
+        _0 = move _1;
+        return;
+    }
+    bb2: {
+        _4 = &((_1 as Some).0: E);
+        _5 = __call_value(move _2, move _4) -> [return: bb3, unwind continue];
+    }
+    bb3: {
+        switchInt(move _5) -> [0: bb4, otherwise: bb1];
+    }
+    bb4: {
+        _0 = Option::<T>::None;
+        return;
+    }
+}''',
     '__and_then': '''fn __and_then(_1: Option, _2: F) -> Option {
     bb0: {
         _3 = discriminant(_1);
@@ -929,6 +950,15 @@ def model(ex, st, c, args):
         f = args[0]
         rest = args[1:]
         return call_value(ex, st, f, rest)
+    if re.fullmatch(r'<&?(mut )?(\{closure@.*\}|F|impl Fn.*|fn\(.*\).*) as Fn(Mut|Once)?<.*>>::call(_mut|_once)?', c):
+        # explicit call through the Fn* traits (e.g. a closure passed by reference to an adaptor): arguments arrive as one tuple
+        f = args[0]
+        tup = args[1]
+        fv = ex.deref_all(f) if isinstance(f, (Ref, BoxV)) else f
+        mcl = re.match(r'<&?(?:mut )?(\{closure@[^{}]*\})', c)
+        if fv is UNINIT and mcl:
+            f = ex.closure_value(mcl.group(1), [])      # a capture-less closure is zero-sized: MIR never initialises the local that holds it
+        return call_value(ex, st, f, list(tup.fields) if isinstance(tup, Adt) and tup.ty == 'tuple' else [tup])
     if re.fullmatch(r'<Box<dyn .*> as Fn<.*>>::call', c):
         f = D(args[0])
         tup = args[1]
@@ -1126,6 +1156,124 @@ def model(ex, st, c, args):
         if cur.variant == 0:
             return none()
         return some(Ref(cell, list(path) + [('downcast', 'Some'), ('field', 0)], mut=(c == 'Option::as_mut')))
+    # ----- thread-local storage and interior mutability (state that outlives a call: C12)
+    if c == 'LocalKey::new':
+        return Adt('LocalKey', 0, [args[0]])
+    if c in ('LocalKey::with', 'LocalKey::with_borrow', 'LocalKey::with_borrow_mut'):
+        key = D(args[0])
+        kname = repr(key.fields[0]) if isinstance(key, Adt) else repr(key)
+        cid = st.tls.get(kname)
+        cell = None
+        if cid is not None:
+            for a in st.anchors:
+                if a.id == cid:
+                    cell = a
+        if cell is None:
+            inits = ex.p.by_name.get('__rust_std_internal_init_fn', [])
+            if len(inits) != 1:
+                raise Unsupported('thread-local initialiser is ambiguous (%d candidates)' % len(inits))
+            v = ex.subcall(st, inits[0], [])
+            cell = st.new_cell(v)
+            st.anchors.append(cell)
+            st.tls[kname] = cell.id
+        r = Ref(cell, [])
+        if c != 'LocalKey::with':
+            r = Ref(cell, [('field', 0)], mut=c.endswith('_mut'))
+        return call_value(ex, st, args[1], [r])
+    if re.fullmatch(r'<(RefCell|Cell)<.*> as Default>::default', c):
+        raw = getattr(st, 'cur_raw', '') or ''
+        mt = re.match(r'<(?:RefCell|Cell)<(.*)> as Default>::default', raw)
+        inner = mt.group(1) if mt else ''
+        base = re.sub(r'<.*', '', inner).split('::')[-1]
+        b = ex.p.find_method('Default', base, 'default')
+        if b is None:
+            return Tail('<%s as Default>::default' % inner, [])      # wrapped below by the RefCell::new of the caller is impossible: report
+        return Adt('RefCell', 0, [ex.subcall(st, b, [])])
+    if c in ('RefCell::new', 'Cell::new'):
+        return Adt('RefCell', 0, [args[0]])
+    if c in ('RefCell::borrow_mut', 'RefCell::borrow', 'RefCell::try_borrow_mut', 'RefCell::try_borrow', 'RefCell::get_mut', 'RefCell::as_ptr'):
+        cell, path = ex.deref_target(args[0])
+        g = Adt('RefGuard', 0, [Ref(cell, list(path) + [('field', 0)], mut=('mut' in c))])
+        if c in ('RefCell::get_mut',):
+            return g.fields[0]
+        return ok(g) if c.startswith('RefCell::try_') else g
+    if re.fullmatch(r'<(RefMut|Ref|std::cell::RefMut|std::cell::Ref)<.*> as Deref(Mut)?>::deref(_mut)?', c):
+        g = D(args[0])
+        return g.fields[0]
+    if c in ('Cell::get', 'RefCell::take', 'Cell::take', 'Cell::replace', 'RefCell::replace', 'Cell::set', 'RefCell::into_inner', 'Cell::into_inner'):
+        if c.endswith('into_inner'):
+            return args[0].fields[0]
+        cell, path = ex.deref_target(args[0])
+        cur = ex.load(cell, list(path) + [('field', 0)])
+        if c == 'Cell::get':
+            return copy_value(cur)
+        if c in ('Cell::set',):
+            ex.store(cell, list(path) + [('field', 0)], args[1])
+            return mkunit()
+        if c.endswith('::replace'):
+            ex.store(cell, list(path) + [('field', 0)], args[1])
+            return cur
+        raise Unsupported(c)
+    # ----- further Option / Result combinators (variants are concrete in this value model)
+    if c == 'Option::transpose':
+        o = args[0]
+        if o.variant == 0:
+            return ok(none())
+        r = o.fields[0]
+        return ok(some(r.fields[0])) if r.variant == 0 else Adt('Result', 1, [r.fields[0]])
+    if c == 'Result::transpose':
+        r = args[0]
+        if r.variant == 1:
+            return some(Adt('Result', 1, [r.fields[0]]))
+        o = r.fields[0]
+        return none() if o.variant == 0 else some(ok(o.fields[0]))
+    if c in ('Option::map_or', 'Result::map_or'):
+        o = args[0]
+        good = (o.variant == 1) if c.startswith('Option') else (o.variant == 0)
+        return call_value(ex, st, args[2], [o.fields[0]]) if good else args[1]
+    if c in ('Option::map_or_else', 'Result::map_or_else'):
+        o = args[0]
+        if c.startswith('Option'):
+            return call_value(ex, st, args[2], [o.fields[0]]) if o.variant == 1 else call_value(ex, st, args[1], [])
+        return call_value(ex, st, args[2], [o.fields[0]]) if o.variant == 0 else call_value(ex, st, args[1], [o.fields[0]])
+    if c in ('Option::is_some_and', 'Option::is_none_or'):
+        o = args[0]
+        if o.variant == 0:
+            return z3.BoolVal(c == 'Option::is_none_or')
+        return call_value(ex, st, args[1], [o.fields[0]])
+    if c in ('Result::is_ok_and', 'Result::is_err_and'):
+        r = args[0]
+        if (r.variant == 0) != (c == 'Result::is_ok_and'):
+            return z3.BoolVal(False)
+        return call_value(ex, st, args[1], [r.fields[0]])
+    if c == 'Option::or_else':
+        return args[0] if args[0].variant == 1 else call_value(ex, st, args[1], [])
+    if c == 'Result::or_else':
+        return args[0] if args[0].variant == 0 else call_value(ex, st, args[1], [args[0].fields[0]])
+    if c == 'Result::or':
+        return args[0] if args[0].variant == 0 else args[1]
+    if c == 'Result::and':
+        return args[1] if args[0].variant == 0 else Adt('Result', 1, [args[0].fields[0]])
+    if c == 'Option::xor':
+        a, b = args
+        return a if (a.variant == 1 and b.variant == 0) else b if (a.variant == 0 and b.variant == 1) else none()
+    if c == 'Option::zip':
+        a, b = args
+        return some(Adt('tuple', 0, [a.fields[0], b.fields[0]])) if (a.variant == 1 and b.variant == 1) else none()
+    if c == 'Option::flatten':
+        return args[0].fields[0] if args[0].variant == 1 else none()
+    if c in ('Option::copied', 'Result::copied', 'Result::cloned'):
+        o = args[0]
+        if c.startswith('Option'):
+            return none() if o.variant == 0 else some(copy_value(ex.deref1(o.fields[0])))
+        return ok(copy_value(ex.deref1(o.fields[0]))) if o.variant == 0 else o
+    if c in ('Result::as_ref', 'Result::as_mut'):
+        cell, path = ex.deref_target(args[0])
+        cur = ex.load(cell, path)
+        vn = 'Ok' if cur.variant == 0 else 'Err'
+        return Adt('Result', cur.variant, [Ref(cell, list(path) + [('downcast', vn), ('field', 0)], mut=(c == 'Result::as_mut'))])
+    if c == 'Option::filter':
+        return ('BODY', synth_static(ex, '__opt_filter'), args)
     if c == 'Option::and_then':
         return ('BODY', synth_static(ex, '__and_then'), args)
     if c == 'Result::and_then':
@@ -1747,6 +1895,26 @@ def model(ex, st, c, args):
         if t == 'n':
             return none()
         return some(Ref(st.new_cell(SStr(s.items[n:])), []))
+    if c in ('core::str::<impl str>::trim_matches', 'core::str::<impl str>::trim_start_matches', 'core::str::<impl str>::trim_end_matches',
+             'core::str::<impl str>::trim_start', 'core::str::<impl str>::trim_end'):
+        s = to_sstr(ex, D(args[0]) if isinstance(args[0], Ref) else args[0])
+        kind = c.split('::')[-1]
+        py = s.concrete()
+        pat = args[1] if len(args) > 1 else None
+        patc = None
+        if isinstance(pat, Int) and z3.is_bv_value(z3.simplify(pat.t)):
+            patc = chr(z3.simplify(pat.t).as_long())
+        if py is not None and (pat is None or patc is not None):
+            chars = patc if patc is not None else None
+            if kind in ('trim_matches',):
+                out = py.strip(chars)
+            elif kind in ('trim_start_matches', 'trim_start'):
+                out = py.lstrip(chars) if (chars or all(ord(ch) < 128 for ch in py)) else None
+            else:
+                out = py.rstrip(chars) if (chars or all(ord(ch) < 128 for ch in py)) else None
+            if out is not None:
+                return Ref(st.new_cell(sstr(out)), [])
+        return Ref(st.new_cell(SStr([Opaque(kind, (SStr(s.items),) + ((pat,) if pat is not None else ()))])), [])
     if c in ('core::str::<impl str>::trim', 'str::<impl str>::to_lowercase', 'str::<impl str>::to_uppercase'):
         s = to_sstr(ex, args[0])
         kind = c.split('::')[-1]
